@@ -301,7 +301,8 @@ class PDFContentParser(PSStackParser[Union[PSKeyword, PDFStream]]):
                 ):
                     i += 1
                 else:
-                    i = 0
+                    # the byte that broke the match may itself start the target
+                    i = 1 if ci == target[0] else 0
             else:
                 try:
                     j = self.buf.index(target[0], self.charpos)
